@@ -47,7 +47,7 @@ impl Check for C02 {
         ))
     }
     fn gen(s: &mut Src, _t: Tier) -> Case {
-        let o = GenOpts { density: 3, max_ops: 5, compact_chance: (1, 60), ..GenOpts::default() };
+        let o = GenOpts { density: 3, max_ops: 5, compact_chance: (1, 60), failing_blob_chance: (1, 12), ..GenOpts::default() };
         let mut program = prog::valid_program(s, &o);
         if s.chance(1, 40) {
             // an extension record under its namespace name in another spelling: the writer refuses it (then the program is
